@@ -36,14 +36,14 @@ theorem go_cons (fuel off b : Nat) (rest : List Nat) :
 (each invalid byte becomes U+FFFD). -/
 theorem unicode_fun_reencode_aux : ∀ (fuel : Nat) (s : Bytes) (off : Nat), s.length ≤ fuel →
     ∃ out, unicodeFormatAux fuel s = some out ∧
-      parseFun unicodeDec out = Utf8.reencode (Utf8.rangeDecode.go fuel off s)
-  | 0, [], _, _ => ⟨[], rfl, by simp [parseFun_nil, Utf8.rangeDecode.go, Utf8.reencode]⟩
+      parseFun unicodeDec out = Utf8L.reencode (Utf8.rangeDecode.go fuel off s)
+  | 0, [], _, _ => ⟨[], rfl, by simp [parseFun_nil, Utf8.rangeDecode.go, Utf8L.reencode]⟩
   | 0, _ :: _, _, h => by simp at h
-  | fuel + 1, [], _, _ => ⟨[], rfl, by simp [parseFun_nil, Utf8.rangeDecode.go, Utf8.reencode]⟩
+  | fuel + 1, [], _, _ => ⟨[], rfl, by simp [parseFun_nil, Utf8.rangeDecode.go, Utf8L.reencode]⟩
   | fuel + 1, b :: rest, off, hlen => by
     rw [go_cons]
     rcases hdr : Utf8.decodeRune (b :: rest) with ⟨c, size⟩
-    have hcases := Utf8.decodeRune_cases b rest
+    have hcases := Utf8L.decodeRune_cases b rest
     rw [hdr] at hcases
     simp only [] at hcases ⊢
     have hs1 : 1 ≤ size := by
@@ -56,11 +56,11 @@ theorem unicode_fun_reencode_aux : ∀ (fuel : Nat) (s : Bytes) (off : Nat), s.l
     rw [hsz]
     obtain ⟨r, hr, hpr⟩ := unicode_fun_reencode_aux fuel ((b :: rest).drop size) (off + size)
       (by simp only [List.length_drop, List.length_cons] at hlen ⊢; omega)
-    simp only [Utf8.reencode, List.flatMap_cons]
-    simp only [Utf8.reencode] at hpr
+    simp only [Utf8L.reencode, List.flatMap_cons]
+    simp only [Utf8L.reencode] at hpr
     rw [← hpr]
     by_cases hb : b < 0x80
-    · have hda := Utf8.decodeRune_ascii rest hb
+    · have hda := Utf8L.decodeRune_ascii rest hb
       rw [hdr] at hda
       simp only [Prod.mk.injEq] at hda
       obtain ⟨rfl, rfl⟩ := hda
@@ -86,12 +86,12 @@ theorem unicode_fun_reencode_aux : ∀ (fuel : Nat) (s : Bytes) (off : Nat), s.l
 
 theorem unicode_fun_reencode (s : Bytes) :
     ∃ out, unicodeFormat s = some out ∧ parseFun unicodeDec out = Utf8.encode (Utf8.runes s) := by
-  rw [Utf8.encode_runes]
+  rw [Utf8L.encode_runes]
   exact unicode_fun_reencode_aux s.length s 0 (Nat.le_refl _)
 
 theorem unicode_fun_roundtrip (s : Bytes) (hv : Utf8.valid s = true) :
     ∃ out, unicodeFormat s = some out ∧ parseFun unicodeDec out = s := by
   obtain ⟨out, h1, h2⟩ := unicode_fun_reencode s
-  exact ⟨out, h1, by rw [h2, Utf8.encode_runes_valid s hv]⟩
+  exact ⟨out, h1, by rw [h2, Utf8L.encode_runes_valid s hv]⟩
 
 end Golib.C07
